@@ -101,6 +101,14 @@ def make_query(name: str, arity: int, position: str) -> str:
         args[0] = 'e.Muons("muons").First().pt()'
         args = [a.replace("m.eta()", "2.5").replace("m.phi()", "1.5") for a in args]
         return f"ds.Select(lambda e: (1 + {name}({', '.join(args)}), e.Muons(\"muons\").Count()))"
+    if position == "first2" and name != "nan":
+        # two arguments that each live inside their own First() loop (one-argument functions: the same as "first")
+        args = arg_exprs(name, arity)
+        args[0] = 'e.Muons("muons").First().pt()'
+        if arity >= 2:
+            args[1] = 'e.Muons("others").First().eta()'
+        args = [a.replace("m.eta()", "2.5").replace("m.phi()", "1.5") for a in args]
+        return f"ds.Select(lambda e: ({name}({', '.join(args)}), e.Muons(\"muons\").Count()))"
     if position == "pair" and name != "nan":
         # two columns that differ only in the documented function under an equal outer call: each keeps its own function
         other = partner(name, arity)
@@ -186,7 +194,7 @@ def check(tier: str, seed: int, t0: float, build: core.BuildStatus) -> int:
             audit = [[n, "?", [], "false", []] for n in parse_readme()]
         except Exception:  # noqa: BLE001
             audit = []
-    positions = ["alone", "arith", "intarg", "literal", "nested", "first", "pair", "shadow", "deref", "hdr"]
+    positions = ["alone", "arith", "intarg", "literal", "nested", "first", "pair", "shadow", "deref", "hdr", "first2"]
     smodel = core.Model() if build.model_ok else None
     distinct = set()
     per_name: Dict[str, Dict[str, Any]] = {}
@@ -223,7 +231,7 @@ def check(tier: str, seed: int, t0: float, build: core.BuildStatus) -> int:
                         what=f"{name}(...) is emitted as {other[0] if other else 'no call'} on {backend}" + (f" ({hint})" if hint else ""),
                         replay={**replay, "differs": hint}))
                     continue
-                if pos == "first" and name != "nan" and smodel is not None:
+                if pos in ("first", "first2") and name != "nan" and smodel is not None:
                     # the value of the call must be used where its arguments are in scope (Coq-defined checker of C02)
                     from .. import cxx, qgen as _qgen, semrun
                     from . import c02 as _c02
